@@ -743,15 +743,27 @@ fn aln_convert(ch: &Chooser) -> Outcome {
     let a = *ch.pick_free("from", sets);
     let b = *ch.pick_free("to", sets);
     let doc = ch.pick_free("doc", &ADOCS[..]);
+    // the two record APIs of the generic reader: boxed trait objects, or the `alignment::Record` enum
+    let enum_api = ch.free("reader-api", 2) == 1;
     let fold = a.fmt == AFmt::Cram || b.fmt == AFmt::Cram;
     let decoded = || {
         format!(
-            "write document `{}` ({} records) with the generic alignment writer as {}; then, as in examples/util_alignment_rewrite.rs: reader.read_header(); writer({}).write_header(&header); for r in reader.records(&header) {{ writer.write_record(&header, &r?) }}; writer.finish(&header); read the result",
-            doc.name, doc.records.len(), a.name, b.name
+            "write document `{}` ({} records) with the generic alignment writer as {}; then, as in examples/util_alignment_rewrite.rs: reader.read_header(); writer({}).write_header(&header); {}; writer.finish(&header); read the result",
+            doc.name, doc.records.len(), a.name, b.name,
+            if enum_api {
+                "let mut r = alignment::Record::default(); while reader.read_record(&header, &mut r)? != 0 { writer.write_record(&header, &r)? }"
+            } else {
+                "for r in reader.records(&header) { writer.write_record(&header, &r?)? }"
+            }
         )
     };
     ch.desc(decoded);
-    let fp = |rest: String| format!("family=alignment stage=convert from={} to={} doc={} {rest}", a.name, b.name, doc_class(doc.name));
+    let fp = |rest: String| {
+        format!(
+            "family=alignment stage=convert api={} from={} to={} doc={} {rest}",
+            if enum_api { "read_record" } else { "records" }, a.name, b.name, doc_class(doc.name)
+        )
+    };
     let v = |rest: String, exp: String, obs: String| Err(Violation::new(fp(rest), decoded(), exp, obs));
 
     let src = match vmc::catch(|| write_aln(a, doc)) {
@@ -777,12 +789,23 @@ fn aln_convert(ch: &Chooser) -> Outcome {
                 .build_from_writer(sink.clone())?;
             w.write_header(&header)?;
             let mut n = 0;
-            for rec in r.records(&header) {
-                let rec = rec?;
-                w.write_record(&header, &rec)?;
-                n += 1;
-                if n > src.len() + 1000 {
-                    return Err(io::Error::other("vmc: iteration cap"));
+            if enum_api {
+                let mut rec = noodles_util::alignment::Record::default();
+                while r.read_record(&header, &mut rec)? != 0 {
+                    w.write_record(&header, &rec)?;
+                    n += 1;
+                    if n > src.len() + 1000 {
+                        return Err(io::Error::other("vmc: iteration cap"));
+                    }
+                }
+            } else {
+                for rec in r.records(&header) {
+                    let rec = rec?;
+                    w.write_record(&header, &rec)?;
+                    n += 1;
+                    if n > src.len() + 1000 {
+                        return Err(io::Error::other("vmc: iteration cap"));
+                    }
                 }
             }
             w.finish(&header)?;
@@ -811,7 +834,7 @@ fn aln_convert(ch: &Chooser) -> Outcome {
     };
     let expected = aln::doc_log(doc, fold);
     let got = read_aln(source(&Arc::new(dst.clone()), Delivery::Slice), Some(bset), fold, dst.len() + 1000);
-    ch.obs_hash((&a.name, &b.name, &doc.name, got.class(), dst.len()));
+    ch.obs_hash((&a.name, &b.name, &doc.name, enum_api, got.class(), dst.len()));
     if got != ReadOut::Ok(expected.clone()) {
         return v(
             format!("symptom={}", content_symptom(&expected, &got)),
@@ -827,14 +850,25 @@ fn var_convert(ch: &Chooser) -> Outcome {
     let a = *ch.pick_free("from", &VSETS);
     let b = *ch.pick_free("to", &VSETS);
     let doc = ch.pick_free("doc", &VDOCS[..]);
+    let enum_api = ch.free("reader-api", 2) == 1;
     let decoded = || {
         format!(
-            "write document `{}` ({} records) with the generic variant writer as {}; then, as in examples/util_variant_rewrite.rs: reader.read_header(); writer({}).write_header(&header); for r in reader.records(&header) {{ writer.write_record(&header, r?.as_ref()) }}; drop(writer); read the result",
-            doc.name, doc.records.len(), a.name, b.name
+            "write document `{}` ({} records) with the generic variant writer as {}; then, as in examples/util_variant_rewrite.rs: reader.read_header(); writer({}).write_header(&header); {}; drop(writer); read the result",
+            doc.name, doc.records.len(), a.name, b.name,
+            if enum_api {
+                "let mut r = variant::Record::default(); while reader.read_record(&mut r)? != 0 { writer.write_record(&header, &r)? }"
+            } else {
+                "for r in reader.records(&header) { writer.write_record(&header, r?.as_ref())? }"
+            }
         )
     };
     ch.desc(decoded);
-    let fp = |rest: String| format!("family=variant stage=convert from={} to={} doc={} {rest}", a.name, b.name, doc_class(doc.name));
+    let fp = |rest: String| {
+        format!(
+            "family=variant stage=convert api={} from={} to={} doc={} {rest}",
+            if enum_api { "read_record" } else { "records" }, a.name, b.name, doc_class(doc.name)
+        )
+    };
     let v = |rest: String, exp: String, obs: String| Err(Violation::new(fp(rest), decoded(), exp, obs));
 
     let src = match vmc::catch(|| write_var(a, doc)) {
@@ -858,12 +892,23 @@ fn var_convert(ch: &Chooser) -> Outcome {
                 .build_from_writer(sink.clone());
             w.write_header(&header)?;
             let mut n = 0;
-            for rec in r.records(&header) {
-                let rec = rec?;
-                w.write_record(&header, rec.as_ref())?;
-                n += 1;
-                if n > src.len() + 1000 {
-                    return Err(io::Error::other("vmc: iteration cap"));
+            if enum_api {
+                let mut rec = noodles_util::variant::Record::default();
+                while r.read_record(&mut rec)? != 0 {
+                    w.write_record(&header, &rec)?;
+                    n += 1;
+                    if n > src.len() + 1000 {
+                        return Err(io::Error::other("vmc: iteration cap"));
+                    }
+                }
+            } else {
+                for rec in r.records(&header) {
+                    let rec = rec?;
+                    w.write_record(&header, rec.as_ref())?;
+                    n += 1;
+                    if n > src.len() + 1000 {
+                        return Err(io::Error::other("vmc: iteration cap"));
+                    }
                 }
             }
         }
